@@ -37,8 +37,13 @@ def gen_scripts(tier, r):
                 ops.append(f"jump {t} {_hint(r, t)}")
             elif c < 0.86: ops.append("clear")
             elif c < 0.92: ops.append(r.choice(["movein", "moveassign", "selfmove"]))
-            else: ops.append("moveout")
+            else: ops.append(r.choice(["moveout", "moveassignout"]))
         S.append(("switch", ops))
+    # the moved-from object of a move construction / move assignment into a USED iterator is a fresh iterator
+    for s in [0, 100, 10**6, 10**9 + 7]:
+        for mv in ["moveout", "moveassignout"]:
+            S.append(("switch-moved-from", [f"new {s} {_hint(r, s)}", f"next {r.randrange(1, 2000)}", mv, "next 3", "prev 4"]))
+            S.append(("switch-moved-from", [f"new {s + 1000} {_hint(r, s)}", f"prev {r.randrange(1, 50)}", mv, "prev 2", "next 2", "clear", "next 1"]))
     # first-of-block / last-of-chunk seams
     for s in [2, 3, 100, 719, 721, 10**4, 10**6 + 3, 2**32 - 5, 2**32 + 15]:
         S.append(("seam-fwd-bwd", [f"new {s} {UMAX}", "next 1", "prev 2", "next 3", "prev 1"]))
@@ -172,7 +177,7 @@ def oracle_check(scripts, impl_lines):
                 if t[0] == "new": cur.jump(int(t[1]))
                 elif t[0] == "jump": cur.jump(int(t[1]))
                 elif t[0] == "clear": cur.jump(0)
-                elif t[0] == "moveout": cur.jump(0)
+                elif t[0] in ("moveout", "moveassignout"): cur.jump(0)
                 hist.append(o)
                 k += 1
     return None
